@@ -128,4 +128,12 @@ func init() {
 			return rule != "C5" || strings.HasPrefix(key, "settings key")
 		}),
 	}
+	properties["C20"] = &Property{
+		Rules: []string{"K1", "K2", "K3"},
+		Explanation: "Decides C20 structurally for every route and every header at once: (K2) all route registrations in live code (the route table is listed in the evidence) are made on values that flow from a mux.NewRouter() and every listener serves such a router, nothing else is served; " +
+			"(K1) on each such router the first router-wide middleware in execution order is BasicAuthMiddleware(user, pass) installed under exactly `user != \"\" && pass != \"\"`, so compression/CORS/logging are inner to it; " +
+			"(K3) the only pass-through of the auth handler is dominated by the exact inequality tests of the decoded user and password against the configured ones, by the empty-header and scheme rejections, and every rejecting exit answers 401/400 before any handler runs.",
+		NotCovered:  "gorilla/mux semantics are trusted (router-wide middlewares run for every matched route in Use order; unmatched requests get 404/405 without middleware — no handler runs for them either); base64 decoding details; timing side channels of string comparison.",
+		Assumptions: []string{"gorilla/mux v1.8 middleware semantics (read from the dependency)", "the configured credentials reach main/applyMiddlewares unchanged (they are the same expressions in guard and call, checked)"},
+	}
 }
